@@ -998,6 +998,17 @@ def translate(text, roots=None, rename=None, stubs=(), model='bit', shrink=(), d
     # typedefs for anon/arr types must come before named structs that embed them: simple approach = interleave by re-running
     out += fwd
     out += ["/* helper aggregate types */"] + order_typedefs(em.typedefs, emitted)
+    # stable aliases for the (numbered, link-order dependent) aggregate types in the signatures of the roots
+    argt = []
+    for n in (roots or []):
+        f = m.funcs.get(n)
+        if not f: continue
+        for i, (t, _) in enumerate(f['params']):
+            if isinstance(t, Ptr) and isinstance(t.to, (Struct, Arr)) and not (isinstance(t.to, Struct) and t.to.opaque):
+                try: argt.append(f"typedef {em.ctype(t.to)} ARGT_{san(n)}_{i};")
+                except TypeError: pass
+        if isinstance(f['ret'], (Struct, Arr)): argt.append(f"typedef {em.ctype(f['ret'])} RETT_{san(n)};")
+    out += argt
     out += decls + gdecls
     if not decls_only:
         for n in seen: out.append(bodies[n])
